@@ -53,8 +53,13 @@ func addFailure(r *Rng, p *DevPlan, need int) {
 	case 3:
 		p.FailAt = 1 + need + r.Range(1, 40) // never reached by a caller that stops in time
 	}
-	p.FailKind = r.Range(1, 3)
+	p.FailKind = r.Range(1, nErrKinds-1)
 	p.FailWith = r.Chance(1, 2)
+	if p.FailKind >= EAgain {
+		p.Recover = r.Chance(2, 3)
+	} else {
+		p.Recover = r.Chance(1, 6)
+	}
 }
 
 func genC14(r *Rng) *Case {
@@ -106,9 +111,12 @@ func enumC14() []*Case {
 	for si, sh := range shapes {
 		add(DevPlan{Frag: sh.frag, Reads: sh.reads}, si%5 == 4)
 		for at := 0; at <= 33; at++ {
-			for kind := 1; kind <= 3; kind++ {
+			for kind := 1; kind < nErrKinds; kind++ {
 				for _, with := range []bool{false, true} {
 					add(DevPlan{Frag: sh.frag, Reads: sh.reads, FailAt: at + 1, FailKind: kind, FailWith: with}, (si+at)%7 == 3)
+					if kind >= ESentinel {
+						add(DevPlan{Frag: sh.frag, Reads: sh.reads, FailAt: at + 1, FailKind: kind, FailWith: with, Recover: true}, (si+at)%7 == 5)
+					}
 				}
 			}
 		}
@@ -195,6 +203,11 @@ func checkGenKey(c *Case, v *Verdict) {
 				v.fail("genkey-overread", "no Read after the 32nd byte", act, "GenerateKey read again after it had 32 bytes")
 				return
 			}
+			// the reader reported an error before the seed was complete (and
+			// recovered later): "the reader's error and no key"
+			v.fail("genkey-error-swallowed", fmt.Sprintf("(nil, nil, %v)", devErr(dev.ErrKind)), act,
+				"GenerateKey returned a key although the reader reported an error after %d bytes", dev.ErrAtByte)
+			return
 		}
 		if dev.ErrKind != 0 {
 			v.probe("genkey-error-with-last-byte-success")
